@@ -1041,6 +1041,11 @@ impl<'a> Gen<'a> {
         }
         if !r.magic.is_empty() || r.attrs_field.is_some() {
             // such a receiver cannot implement Default / From<Ident> (its magic field types do not) ...
+            // (every other such receiver that has the `default` magic field gets one, whatever was drawn:
+            // decided by the receiver's number so that nothing else of the corpus moves)
+            if tr == Trait::TypeParam && r.attrs_field.is_none() && id % 2 == 0 && r.magic.iter().any(|m| m.kind == MagicKind::Default) {
+                r.cdefault = Def::Trait;
+            }
             let keep = tr == Trait::TypeParam && r.attrs_field.is_none() && r.cdefault == Def::Trait;
             // ... except a type-parameter receiver with a hand-written `Default` (an identifier, no bounds, a
             // default type): its fallback instance is for the fields the attributes did not supply, never
